@@ -329,6 +329,15 @@ class LangStringSet(MutableMapping[str, str]):
     def clear(self) -> None:
         raise KeyError(f"A {self.__class__.__name__} must not be empty!")
 
+    def update(self, *args, **kwargs) -> None:  # type: ignore[override]
+        # MutableMapping.update() sets one item after the other; restore the old content if one of them is rejected
+        backup = dict(self._dict)
+        try:
+            super().update(*args, **kwargs)
+        except Exception:
+            self._dict = backup
+            raise
+
 
 class ConstrainedLangStringSet(LangStringSet, metaclass=abc.ABCMeta):
     """
